@@ -1,7 +1,7 @@
-def meshBounds (maxima : Int) (midpoints : Int) (max_shifts : Rat) : Int × Int :=
+def meshBounds (maxima : Int) (midpoints : Int) (max_shifts' : Rat) : Int × Int :=
   let shifts : Int := (maxima - midpoints)
-  let shiftl : Rat := ((((-shifts) : Int) : Rat) - max_shifts)
-  let shiftr : Rat := ((((-shifts) : Int) : Rat) + max_shifts)
+  let shiftl : Rat := ((((-shifts) : Int) : Rat) - max_shifts')
+  let shiftr : Rat := ((((-shifts) : Int) : Rat) + max_shifts')
   let lo : Int := (Py.ceil ((Py.rmax shiftl (-1 : Rat)) * (20 : Rat)))
   let hi : Int := (Py.floor ((Py.rmin shiftr (1 : Rat)) * (20 : Rat)))
   (lo, hi)
